@@ -67,7 +67,7 @@ def mci_ipm_param_to_csv(
         expanded=expanded,
     )
     fieldnames = ["table_id", "effective_timestamp", "active_inactive_code"]
-    fieldnames.extend(config[table_id].keys())
+    fieldnames.extend(vbs_in.param_config[table_id].keys())
     csv_writer = csv.DictWriter(
         out_csv, fieldnames=fieldnames, extrasaction="ignore", lineterminator="\n"
     )
